@@ -547,6 +547,7 @@ type Clause struct {
 
 type LoopSpec struct {
 	Invs  []Clause
+	Asserts []Clause // at call F#k assert e
 	Prunes *SExpr // ast.Inspect: the closure returns false exactly at nodes satisfying this expression over $node
 	Dec   *Clause
 	entry *State // run time: the state at the entry of the loop execution being checked (for atentry(e))
@@ -555,6 +556,7 @@ type LoopSpec struct {
 }
 
 type Contract struct {
+	Merge     bool   // join the states after if statements (fewer, larger paths)
 	Key       string // "pkgpath.Recv.Name" or "pkgpath.Name"
 	Pos       string
 	Props     []string
@@ -616,7 +618,7 @@ type SpecFile struct {
 var clauseKeywords = map[string]bool{
 	"func": true, "requires": true, "ensures": true, "assigns": true, "fresh": true, "pure": true,
 	"trusted": true, "loop": true, "at": true, "ghost": true, "axiom": true, "lemma": true, "props": true,
-	"nullable": true, "nonnil": true, "let": true, "nullablefield": true, "impure": true, "ghostfield": true, "nilrecv": true, "evaluated": true, "macro": true, "nilable": true, "ghostparam": true,
+	"nullable": true, "nonnil": true, "let": true, "nullablefield": true, "impure": true, "ghostfield": true, "nilrecv": true, "evaluated": true, "macro": true, "nilable": true, "ghostparam": true, "merge": true,
 }
 
 // parseSpecLines parses the `//@` lines of a contract file. lines are (text, pos) with the `//@` stripped.
@@ -767,6 +769,9 @@ func parseSpecLines(pkg string, lines []string, poss []string) (*SpecFile, error
 			cur.Ghosts = append(cur.Ghosts, SBind{f[0], f[1]})
 		case "nilrecv":
 			cur.NilRecv = true
+		case "merge":
+			// merge: the two normal continuations of an if statement are joined into one symbolic state
+			cur.Merge = true
 		case "nilable":
 			cur.NilableParams = append(cur.NilableParams, strings.Fields(strings.ReplaceAll(rest, ",", " "))...)
 		case "ghostfield":
@@ -849,6 +854,18 @@ func parseSpecLines(pkg string, lines []string, poss []string) (*SpecFile, error
 					cur.Inspects[parts[1]] = &LoopSpec{}
 				}
 				cur.Inspects[parts[1]].Prunes = e
+				break
+			}
+			if len(parts) == 4 && parts[0] == "call" && parts[2] == "assert" {
+				// at call F#k assert e: e holds (over the locals in scope) whenever control reaches that call
+				e, err := parseSpecExpr(parts[3], it.pos)
+				if err != nil {
+					return nil, err
+				}
+				if cur.Inspects[parts[1]] == nil {
+					cur.Inspects[parts[1]] = &LoopSpec{}
+				}
+				cur.Inspects[parts[1]].Asserts = append(cur.Inspects[parts[1]].Asserts, Clause{Kind: "assert", Expr: e, Text: parts[3], Pos: it.pos})
 				break
 			}
 			if len(parts) < 4 || parts[0] != "call" || parts[2] != "invariant" {
